@@ -113,10 +113,12 @@ func (sc *SpecCtx) eval(e *SExpr) (*Val, error) {
 		}
 		if p, ok := g.localAddr[e.Name]; ok {
 			elem := p.Ty.Underlying().(*types.Pointer).Elem()
+			g.noteLocalNamed(e.Name)
 			return &Val{T: g.load(sc.cur, p, elem), Ty: elem}, nil
 		}
 		if t, ok := g.localTypes["$local:"+e.Name]; ok {
 			if _, isParam := sc.env[e.Name]; !isParam {
+				g.noteLocalNamed(e.Name)
 				if _, has := sc.cur.ghost["$local:"+e.Name]; has {
 					return &Val{T: g.ghostTerm(sc.cur, "$local:"+e.Name), Ty: t}, nil
 				}
